@@ -453,6 +453,7 @@ var pureMethodStubs = map[string]bool{
 var stubEffects = map[string]string{
 	"fmt.Errorf": "none", "fmt.Sprintf": "none", "time.Now": "none", "time.Since": "none",
 	"reflect.TypeOf": "none", "reflect.ValueOf": "none", "(reflect.Value).Pointer": "none",
+	"reflect.New": "none", "reflect.Zero": "none", "(reflect.Value).Interface": "none",
 	"(reflect.Value).Call":        "all",
 	"encoding/json.Marshal":       "none",
 	"encoding/json.Unmarshal":     "unmarshal",
